@@ -88,10 +88,17 @@ Proof. exact reachable_consistent_check. Qed.
    first write of anything; (R2) a member function carries the guard iff the model's setter of the same name is
    `guarded`; (R3) every non-const member function that writes anything at all is one of the fourteen setters of Api.v,
    a placement entry point (which writes nothing but the in-use flag) or one of the two expansion functions (C18; they
-   write widths only); (R4) a placement entry point takes the in-use flag (constructs its guard on isInUse_) BEFORE
-   it hands *this to the algorithms (a shortcut path placed above the guard breaks it) -- so a setter added to the
-   code, a guard dropped or moved behind a write, all break this theorem even when no generated scenario calls that
-   function inside a callback. *)
+   write widths only); (R4) a placement entry point takes the in-use flag THROUGH ITS SCOPE GUARD (table entry
+   "@raii:isInUse_": an automatic variable, declared as a statement of the function body, of a class that the
+   generator recognises by its shape -- constructor saves and sets the flag, destructor restores it, not copyable)
+   BEFORE it hands *this to the algorithms (a shortcut path placed above the guard breaks it); (R5) an entry point
+   writes NOTHING else: in particular a direct assignment to isInUse_ (a hand-written "set before, clear after",
+   which has no exception path: seeded defect C10-10 in the inline place(effort)) is a plain write of "isInUse_"
+   and breaks the theorem; (R6) an entry point calls no own non-const member function other than entry points
+   (place(effort) = placeGlobal + placeDetailed, the effort overloads = their parameter overloads); and every
+   entry point -- the four of them that are DEFINED INLINE in coloquinte.hpp included -- is in the table as a public
+   non-const member function (last conjunct) -- so a setter added to the code, a guard dropped or moved behind a
+   write, a flag marked by hand, all break this theorem even when no generated scenario calls that function. *)
 Theorem c10_structural_setters_guarded_in_source : methods_ok circuit_methods.
 Proof. exact (circuit_methods_okb_sound circuit_methods (eq_refl true)). Qed.
 
